@@ -54,6 +54,9 @@ def queueStep (d : QueueDS) (t : List String) : QueueDS × String :=
   | ["q.extstart", n] =>
     fin (mutateJob d.sys n (fun j =>
       if j.startTime.isSome then j else { j with startTime := some (d.sys.clock / 1000000000) }))
+  -- the user sets / clears / moves spec.startPolicy.startAfter of a not-yet-started Job that has
+  -- a start policy (`editStartAfter` = guarded `mutateJob`)
+  | ["q.sa", n, t] => fin (editStartAfter d.sys n (optInt t))
   | ["q.adv", ns] => fin { d.sys with clock := d.sys.clock + int! ns }
   | ["q.deliver", "jobs"] => fin (deliverJob d.sys)
   | ["q.deliver", "jobconfigs"] => fin (deliverJC d.sys)
